@@ -461,6 +461,15 @@ def a_ne(ev, st, info, args):
     return [(st, T.bnot(T.eq(content(args[0]), content(args[1]))))]
 
 
+@ax('std::cmp::PartialEq::ne', note='the provided != of slices / str / arrays is the negation of their ==; total')
+def a_ne_default(ev, st, info, args):
+    t = ty_arg(info, 0, 'targs')
+    t = tys.strip_refs(t) if t is not None else None
+    if t is not None and (t[0] in ('slice', 'array') or t == ('path', 'str', ())):
+        return a_ne(ev, st, info, args)
+    return [(st, ('opaque', 'provided PartialEq::ne of %s' % (tys.show(t) if t else '?')))]
+
+
 @ax('std::array::<impl [T; N]>::as_slice', '<[T] as std::convert::AsRef<[T]>>::as_ref', 'core::str::<impl str>::as_bytes',
     'std::vec::Vec::<T, A>::as_slice', '<std::vec::Vec<T, A> as std::ops::Deref>::deref', 'std::string::String::as_str',
     '<str as std::convert::AsRef<str>>::as_ref', '<std::string::String as std::ops::Deref>::deref',
@@ -526,12 +535,28 @@ def a_find(ev, st, info, args):
     return [(st, ('opaque', 'str::find with non-ASCII-char pattern'))]
 
 
-@ax('core::slice::<impl [T]>::iter', note='iter() visits the elements in order')
+@ax('core::str::<impl str>::split_once', note='split_once(ASCII char) splits at its first occurrence: Some((before, after)), None if absent; total')
+def a_split_once(ev, st, info, args):
+    seq, p = content(args[0]), args[1]
+    if not (p[0] == 'int' and 0 <= p[1] < 128):
+        return [(st, ('opaque', 'str::split_once with non-ASCII-char pattern'))]
+    outs = []
+    idx = ('call', 'first_byte', (seq, p))
+    for s2, val in fork_bool(st, ('call', 'has_byte', (seq, p))):
+        if val:
+            outs.append((s2, some(('tuple', (T.mk_slice(seq, I(0), idx), T.mk_slice(seq, T.add(idx, I(1)), T.mk_len(seq)))))))
+        else:
+            outs.append((s2, NONE))
+    return outs
+
+
+@ax('core::slice::<impl [T]>::iter', 'core::str::<impl str>::bytes', note='iter() / bytes() visit the elements (bytes) in order')
 def a_iter(ev, st, info, args):
     return [(st, T.mk_adt('$SliceIter', 'I', [('seq', content(args[0]))]))]
 
 
 @ax("<std::slice::Iter<'a, T> as std::iter::Iterator>::position", '<std::slice::Iter<T> as std::iter::Iterator>::position',
+    "<std::str::Bytes<'_> as std::iter::Iterator>::position", '<std::str::Bytes as std::iter::Iterator>::position', 'std::iter::Iterator::position',
     note='position(p) is the index of the first element satisfying p, None if none does; total if p is')
 def a_position(ev, st, info, args):
     it = ev.deref(args[0], st)
@@ -686,6 +711,64 @@ def a_next_if(ev, st, info, args):
     return outs
 
 
+@ax('std::iter::Iterator::find', note='find(p) consumes items up to and including the first one satisfying p (Some(item)), or all of them (None)')
+def a_find_item(ev, st, info, args):
+    it = ev.deref(args[0], st)
+    if not is_iter(it):
+        return [(st, ('opaque', 'find on an unknown iterator'))]
+    outs = []
+    work = [(st, it, 0)]
+    while work:
+        s1, cur, n = work.pop()
+        if n > 64:
+            return [(st, ('opaque', 'find over an iterator without a small constant bound'))]
+        for s2, nxt, item in iter_step(ev, s1, cur):
+            if item is None:
+                s2 = s2.copy() if s2 is s1 else s2
+                write_ref(ev, s2, info, args[0], nxt)
+                outs.append((s2, NONE))
+                continue
+            # the predicate receives a reference to the item
+            for s3, cond in ev.apply_closure(args[1], [item], s2, info['fr'], info['site']):
+                for s4, v in fork_bool(s3, cond):
+                    if v:
+                        s4 = s4.copy() if s4 is s1 else s4
+                        write_ref(ev, s4, info, args[0], nxt)
+                        outs.append((s4, some(item)))
+                    else:
+                        work.append((s4, nxt, n + 1))
+    return outs
+
+
+@ax('std::iter::Iterator::any', '<std::iter::Peekable<I> as std::iter::Iterator>::any',
+    note='any(p) consumes items up to and including the first one satisfying p (true), or all of them (false); over a splitn(n) tokeniser at most n items')
+def a_any(ev, st, info, args):
+    src, pos = split_state(ev, st, args[0])
+    if src is None or pos[0] != 'int' or src[2][1][0] != 'int':
+        return [(st, ('opaque', 'any on an unknown iterator'))]
+    limit = src[2][1][1]
+    outs = []
+    work = [(st, pos[1])]
+    while work:
+        s1, k = work.pop()
+        for s2, present in fork_bool(s1, has_tok(src, I(k))):
+            if not present:
+                set_pos(ev, s2, info, args[0], src, I(k))
+                outs.append((s2, T.FALSE))
+                continue
+            for s3, cond in ev.apply_closure(args[1], [tok(src, I(k))], s2, info['fr'], info['site']):
+                for s4, v in fork_bool(s3, cond):
+                    if v:
+                        set_pos(ev, s4, info, args[0], src, I(k + 1))
+                        outs.append((s4, T.TRUE))
+                    elif k + 1 >= limit:
+                        set_pos(ev, s4, info, args[0], src, I(k + 1))
+                        outs.append((s4, T.FALSE))
+                    else:
+                        work.append((s4, k + 1))
+    return outs
+
+
 def generic_iter_next(ev, st, info, args):
     r = args[0]
     it = ev.deref(r, st)
@@ -699,12 +782,177 @@ def generic_iter_next(ev, st, info, args):
     return outs
 
 
+# ------------------------------------------------------------------------------------------
+# iterator algebra over arrays and slices (std::array::IntoIter, slice::Iter / IterMut, Zip, Enumerate, Copied / Cloned)
+# iterator values are $-prefixed pseudo ADTs; iter_step advances one by value
+
+ITER_ADTS = ('$ArrIter', '$SliceIter', '$IterMut', '$Zip', '$Enumerate', '$Copied', '$Split')
+
+
+def is_iter(v):
+    return v[0] == 'adt' and v[1] in ITER_ADTS
+
+
+def slice_iter(seq):
+    return T.mk_adt('$SliceIter', 'I', [('seq', seq)])
+
+
+def as_iter(ev, st, v, ty=None):
+    """IntoIterator::into_iter of a value: known iterators are themselves, arrays and slices iterate their elements"""
+    if is_iter(v):
+        return v
+    if v[0] == 'ref':
+        v = ev.deref(v, st)
+    v = content(v)
+    if v[0] in T.SEQ_TAGS:
+        return slice_iter(v)
+    if ty is not None and v[0] != 'opaque':
+        t = tys.strip_refs(ty)
+        if t[0] in ('slice', 'array'):
+            return slice_iter(v)        # a symbolic sequence (e.g. the octets of an address) of slice / array type
+    return None
+
+
+def iter_step(ev, st, it):
+    """-> [(state, iterator after the step, item or None)]"""
+    k = it[1]
+    if k == '$ArrIter':
+        el, pos = T.adt_field(it, 'elems'), T.adt_field(it, 'pos')
+        ev.unroll_hint(len(el[1]))
+        if pos[1] >= len(el[1]):
+            return [(st, it, None)]
+        return [(st, T.adt_with(it, 'pos', I(pos[1] + 1)), el[1][pos[1]])]
+    if k == '$Split':
+        src, pos = T.adt_field(it, 'src'), T.adt_field(it, 'pos')
+        if src[2][1][0] == 'int':
+            ev.unroll_hint(src[2][1][1])        # splitn(n, ..) yields at most n tokens
+        outs = []
+        for s2, val in fork_bool(st, has_tok(src, pos)):
+            if val:
+                outs.append((s2, T.adt_with(it, 'pos', T.add(pos, I(1))), tok(src, pos)))
+            else:
+                outs.append((s2, it, None))
+        return outs
+    if k == '$SliceIter':
+        seq = T.adt_field(it, 'seq')
+        n = T.mk_len(seq)
+        if n[0] == 'int':
+            ev.unroll_hint(n[1])
+        outs = []
+        for s2, val in fork_bool(st, T.ge0(T.sub(n, I(1)))):
+            if val:
+                outs.append((s2, slice_iter(T.mk_slice(seq, I(1), n)), T.mk_at(seq, I(0))))
+            else:
+                outs.append((s2, it, None))
+        return outs
+    if k == '$IterMut':
+        base, pos, n = T.adt_field(it, 'base'), T.adt_field(it, 'pos'), T.adt_field(it, 'n')
+        ev.unroll_hint(n[1])
+        if pos[1] >= n[1]:
+            return [(st, it, None)]
+        return [(st, T.adt_with(it, 'pos', I(pos[1] + 1)), ('ref', base[1], tuple(base[2]) + (('i', pos),)))]
+    if k == '$Zip':
+        a, b = T.adt_field(it, 'a'), T.adt_field(it, 'b')
+        outs = []
+        for s2, a2, ia in iter_step(ev, st, a):
+            if ia is None:
+                outs.append((s2, T.adt_with(it, 'a', a2), None))
+                continue
+            for s3, b2, ib in iter_step(ev, s2, b):
+                it2 = T.adt_with(T.adt_with(it, 'a', a2), 'b', b2)
+                outs.append((s3, it2, None if ib is None else ('tuple', (ia, ib))))
+        return outs
+    if k == '$Enumerate':
+        inner, idx = T.adt_field(it, 'it'), T.adt_field(it, 'idx')
+        outs = []
+        for s2, i2, item in iter_step(ev, st, inner):
+            if item is None:
+                outs.append((s2, T.adt_with(it, 'it', i2), None))
+            else:
+                outs.append((s2, T.adt_with(T.adt_with(it, 'it', i2), 'idx', T.add(idx, I(1))), ('tuple', (idx, item))))
+        return outs
+    if k == '$Copied':
+        inner = T.adt_field(it, 'it')
+        outs = []
+        for s2, i2, item in iter_step(ev, st, inner):
+            if item is not None and item[0] == 'ref':
+                item = ev.deref(item, s2)
+            outs.append((s2, T.adt_with(it, 'it', i2), item))
+        return outs
+    raise KeyError(k)
+
+
+@ax('<std::array::IntoIter<T, N> as std::iter::Iterator>::next', '<std::iter::Zip<A, B> as std::iter::Iterator>::next',
+    "<std::slice::Iter<'a, T> as std::iter::Iterator>::next", "<std::slice::IterMut<'a, T> as std::iter::Iterator>::next",
+    '<std::slice::Iter<T> as std::iter::Iterator>::next', '<std::slice::IterMut<T> as std::iter::Iterator>::next',
+    '<std::iter::Enumerate<I> as std::iter::Iterator>::next', '<std::iter::Copied<I> as std::iter::Iterator>::next',
+    '<std::iter::Cloned<I> as std::iter::Iterator>::next',
+    note='next() of an array / slice iterator (and of zip, enumerate, copied, cloned over them) yields the elements in index order, then None')
+def a_seq_next(ev, st, info, args):
+    it = ev.deref(args[0], st)
+    if not is_iter(it):
+        return generic_iter_next(ev, st, info, args)
+    outs = []
+    for s2, it2, item in iter_step(ev, st, it):
+        if it2 != it:
+            s2 = s2.copy() if s2 is st else s2
+            write_ref(ev, s2, info, args[0], it2)
+        outs.append((s2, NONE if item is None else some(item)))
+    return outs
+
+
+@ax('std::array::iter::<impl std::iter::IntoIterator for [T; N]>::into_iter', note='an array by value iterates its elements in index order')
+def a_array_into_iter(ev, st, info, args):
+    a = args[0]
+    if a[0] == 'bytes':
+        a = ('arr', tuple(I(b) for b in a[1]))
+    if a[0] != 'arr':
+        return [(st, ('call', 'into_iter', (a,)))]
+    return [(st, T.mk_adt('$ArrIter', 'I', [('elems', a), ('pos', I(0))]))]
+
+
+@ax('core::slice::<impl [T]>::iter_mut', note='iter_mut() yields a mutable reference to each element in index order')
+def a_iter_mut(ev, st, info, args):
+    r = args[0]
+    if r[0] == 'ref':
+        n = T.mk_len(ev.deref(r, st))
+        if n[0] == 'int':
+            return [(st, T.mk_adt('$IterMut', 'I', [('base', r), ('pos', I(0)), ('n', n)]))]
+    return [(st, ('opaque', 'iter_mut over a sequence of unknown length'))]
+
+
+@ax('std::iter::Iterator::zip', note='zip pairs the items of both iterators and ends with the shorter')
+def a_zip(ev, st, info, args):
+    a, b = as_iter(ev, st, args[0], ty_arg(info, 0)), as_iter(ev, st, args[1], ty_arg(info, 1))
+    if a is None or b is None:
+        return [(st, ('opaque', 'zip of unknown iterators'))]
+    return [(st, T.mk_adt('$Zip', 'I', [('a', a), ('b', b)]))]
+
+
+@ax('std::iter::Iterator::enumerate', note='enumerate pairs each item with its index from 0')
+def a_enumerate(ev, st, info, args):
+    a = as_iter(ev, st, args[0], ty_arg(info, 0))
+    if a is None:
+        return [(st, ('opaque', 'enumerate of unknown iterator'))]
+    return [(st, T.mk_adt('$Enumerate', 'I', [('it', a), ('idx', I(0))]))]
+
+
+@ax('std::iter::Iterator::copied', 'std::iter::Iterator::cloned', note='copied / cloned yield the referenced items by value')
+def a_copied(ev, st, info, args):
+    a = as_iter(ev, st, args[0], ty_arg(info, 0))
+    if a is None:
+        return [(st, ('opaque', 'copied of unknown iterator'))]
+    return [(st, T.mk_adt('$Copied', 'I', [('it', a)]))]
+
+
 AX['std::iter::Iterator::next'] = a_split_next
 TOTAL_NOTE['std::iter::Iterator::next'] = 'a caller-supplied iterator yields items or None (uninterpreted)'
 
 
 @ax('std::iter::IntoIterator::into_iter', '<I as std::iter::IntoIterator>::into_iter', note='into_iter of a caller-supplied collection (uninterpreted)')
 def a_into_iter(ev, st, info, args):
+    if is_iter(args[0]):
+        return [(st, args[0])]          # impl<I: Iterator> IntoIterator for I is the identity
     return [(st, ('call', 'into_iter', (args[0],)))]
 
 
